@@ -13,6 +13,14 @@ use super::apps::*;
 use super::*;
 use crate::common::Fail;
 
+/// Wrapping comparison of ticks (the harness never compares ticks 2^31 or more apart).
+pub fn tick_lt(a: u32, b: u32) -> bool {
+    (a.wrapping_sub(b) as i32) < 0
+}
+pub fn tick_le(a: u32, b: u32) -> bool {
+    (a.wrapping_sub(b) as i32) <= 0
+}
+
 /// Checks on every message that leaves the server (C07 unauthorized clients, C08 hidden data).
 pub fn check_sent(sim: &mut Sim, ci: usize, ch: usize, msg: &Bytes) {
     if sim.or.unauth && !sim.authorized(ci) {
@@ -136,7 +144,7 @@ pub fn read_client_log(sim: &mut Sim, i: usize) {
             if em.kind != SK::Ind {
                 match em.req_tick[i] {
                     Some(r) => {
-                        if tick_at < r {
+                        if tick_lt(tick_at, r) {
                             sim.fail("C04.early", format!("client {i} got {:?} {seq} at update tick {tick_at} < required {r}", em.kind));
                         } else if sim.clients[i].frames > 0 {
                             // statistics only
@@ -165,12 +173,12 @@ pub fn check_frame(sim: &mut Sim, ci: usize) -> Result<(), Fail> {
     let n_rep = c.app.world_mut().query_filtered::<Entity, With<Replicated>>().iter(c.app.world()).count();
     let cw = c.app.world();
     let u = cw.resource::<ServerUpdateTick>().get();
-    if sim.or.structure && u < sim.last_u[ci] {
+    if sim.or.structure && sim.upd_sent[ci].contains(&sim.last_u[ci]) && tick_lt(u, sim.last_u[ci]) {
         return Err(Fail::new("C03.tick_backwards", format!("client {ci}: update tick went back {} -> {u}", sim.last_u[ci])));
     }
     sim.last_u[ci] = u;
     let empty = BTreeMap::new();
-    let expected = if u == 0 {
+    let expected = if u == 0 && !sim.upd_sent[ci].contains(&0) {
         &empty
     } else {
         if sim.or.structure && !sim.upd_sent[ci].contains(&u) {
@@ -272,7 +280,7 @@ pub fn check_frame(sim: &mut Sim, ci: usize) -> Result<(), Fail> {
         };
         let t = h.last_tick().get();
         if let Some(&prev) = sim.last_confirm[ci].get(&ce) {
-            if t < prev {
+            if tick_lt(t, prev) {
                 return Err(Fail::new("C02.tick_backwards", format!("client {ci}: {se} confirmed tick went back {prev} -> {t}")));
             }
         }
@@ -293,9 +301,12 @@ pub fn check_frame(sim: &mut Sim, ci: usize) -> Result<(), Fail> {
             }
         }
         if let Some(o) = have.get("O") {
-            let ok = sim.snap_vals.range(..=u.max(t)).any(|(_, v)| v.get(&se).and_then(|m| m.get("O")) == Some(o));
+            // "at a tick up to now": ordered by when the snapshot was taken, because tick values may wrap
+            let seq = |x: u32| sim.snap_seq.get(&x).copied().unwrap_or(0);
+            let newest = if seq(u) < seq(t) { t } else { u };
+            let ok = sim.snap_vals.iter().filter(|(k, _)| seq(**k) <= seq(newest)).any(|(_, v)| v.get(&se).and_then(|m| m.get("O")) == Some(o));
             if !ok {
-                return Err(Fail::new("C02.once_value", format!("client {ci}: {se} once-component value {o} never existed at a tick <= {}", u.max(t))));
+                return Err(Fail::new("C02.once_value", format!("client {ci}: {se} once-component value {o} never existed at a tick <= {newest}")));
             }
         }
     }
@@ -552,6 +563,9 @@ pub fn check_mutate_ticks_final(sim: &mut Sim) -> Result<(), Fail> {
     use bevy_replicon::shared::replicon_tick::RepliconTick;
     for i in 0..sim.clients.len() {
         if !sim.authorized(i) {
+            continue;
+        }
+        if !sim.cfg.track {
             continue;
         }
         let Some(ticks) = sim.clients[i].app.world().get_resource::<ServerMutateTicks>() else {
